@@ -16,7 +16,8 @@ import (
 // C16: the real items fetcher driven by a timed script; the observation is the log of
 // everything the fetcher loop did, in the order it did it, with times in ms.
 //
-// One unit = 40 ms.  ArriveTimeout = 8 units, GatherSlack = 1.5 units, ForgetTimeout = 40.5
+// One unit = 40 ms (100 ms in the last attempt of a case whose earlier runs were disturbed;
+// times are always reported in nominal ms, 40 per unit).  ArriveTimeout = 8 units, GatherSlack = 1.5 units, ForgetTimeout = 40.5
 // units (the half units keep the loop's time comparisons half a unit away from their
 // thresholds when the script runs on whole units).
 //
@@ -37,7 +38,7 @@ import (
 // A received batch is delivered with a gate closed in front of OnlyInterested, so that the
 // log order "pass before/after received" is the order in which the loop really took them
 // (hook VerifQueued = channel lengths).
-const c16Unit = 40 * time.Millisecond
+const c16UnitDefault = 40 * time.Millisecond
 
 type c16Op struct {
 	kind byte
@@ -119,9 +120,11 @@ type c16Run struct {
 	letOne     int
 	passed     int
 	late       bool
+	unit       time.Duration
 }
 
-func (c *c16Run) ms() int64 { return int64(time.Since(c.start) / time.Millisecond) }
+// time since start in nominal ms (one unit = 40 nominal ms whatever the real unit is)
+func (c *c16Run) ms() int64 { return int64(time.Since(c.start)) * 40 / int64(c.unit) }
 
 func (c *c16Run) onlyInterested(ids []interface{}) []interface{} {
 	c.mu.Lock()
@@ -175,8 +178,8 @@ func (c *c16Run) suspend() bool {
 	return c.suspended
 }
 
-func c16RunOnce(hashLimit int, ops []c16Op) (obs []string, late bool) {
-	c := &c16Run{notInt: map[int]bool{}, seenN: map[int]bool{}, lastN: -1}
+func c16RunOnce(hashLimit int, ops []c16Op, c16Unit time.Duration) (obs []string, late bool) {
+	c := &c16Run{notInt: map[int]bool{}, seenN: map[int]bool{}, lastN: -1, unit: c16Unit}
 	c.cond = sync.NewCond(&c.mu)
 	cfg := itemsfetcher.Config{
 		ForgetTimeout:       c16Unit*40 + c16Unit/2,
@@ -200,6 +203,7 @@ func c16RunOnce(hashLimit int, ops []c16Op) (obs []string, late bool) {
 			return nil
 		}
 	}
+	noise := c30StartNoise()
 	c.start = time.Now()
 	f.Start()
 	for k, o := range ops {
@@ -219,7 +223,7 @@ func c16RunOnce(hashLimit int, ops []c16Op) (obs []string, late bool) {
 			ids = append(ids, 1000+k)
 			at := time.Now().Add(-time.Duration(o.off) * c16Unit)
 			c.mu.Lock()
-			c.log = append(c.log, fmt.Sprintf("a:%d:%d:%d", c.ms(), k, int64(at.Sub(c.start)/time.Millisecond)))
+			c.log = append(c.log, fmt.Sprintf("a:%d:%d:%d", c.ms(), k, int64(at.Sub(c.start))*40/int64(c16Unit)))
 			c.mu.Unlock()
 			_ = f.NotifyAnnounces(strconv.Itoa(o.peer), ids, at, reqFn(o.peer))
 			// wait until the loop has started to process it
@@ -282,6 +286,9 @@ func c16RunOnce(hashLimit int, ops []c16Op) (obs []string, late bool) {
 			c.mu.Unlock()
 		}
 	}
+	if noise.Stop() > c16Unit/5 {
+		late = true
+	}
 	c.mu.Lock()
 	obs = append([]string{}, c.log...)
 	// open everything so that Stop() cannot hang on a callback
@@ -297,7 +304,11 @@ func c16RunCase(in []string) []string {
 	var obs []string
 	var late bool
 	for attempt := 0; attempt < 3; attempt++ {
-		obs, late = c16RunOnce(hl, ops)
+		unit := c16UnitDefault
+		if attempt == 2 { // last attempt: slower clock, proportionally larger tolerances
+			unit = c16UnitDefault * 5 / 2
+		}
+		obs, late = c16RunOnce(hl, ops, unit)
 		if !late {
 			vu.Stat("attempts_" + strconv.Itoa(attempt+1))
 			return obs
